@@ -921,6 +921,22 @@ pub trait ProbeNo {
 }
 impl<T: ?Sized> ProbeNo for &PortableProbe<T> {}
 
+/// The probe applied to concrete library types (a generic `impl Shape` cannot ask it): name, implements `Portable`, `ALIGN`.
+pub fn library_portable_probes() -> Vec<(&'static str, bool, usize)> {
+    use flatty::portable::{be, le};
+    macro_rules! probe {
+        ($($t:ty),* $(,)?) => { vec![$((stringify!($t), (&PortableProbe::<$t>(PhantomData)).impls_portable(), <$t as FlatBase>::ALIGN)),*] };
+    }
+    probe!(
+        u8, i8, u16, u32, u64, i32, usize, f32, f64, (), Bool,
+        le::U16, le::I32, le::U64, be::U16, be::I64, le::F32, be::F64,
+        [u8; 3], [u16; 2], [le::U16; 2], [Bool; 4], PhantomData<u16>, PhantomData<le::U16>,
+        FlatString<u8>, FlatString<u16>, FlatString<u32>, FlatString<u64>, FlatString<usize>, FlatString<le::U16>, FlatString<be::U64>,
+        FlatVec<u8, u8>, FlatVec<u8, u16>, FlatVec<u16, u8>, FlatVec<Bool, u32>, FlatVec<le::U16, u16>, FlatVec<le::U16, le::U32>, FlatVec<Bool, be::U16>, FlatVec<[u8; 3], le::U16>,
+        FlexVec<FlatString<u16>, le::U16>, FlexVec<FlatString<le::U16>, u16>, FlexVec<FlatString<le::U16>, le::U16>, FlexVec<u32, le::U16>, FlexVec<le::U32, be::U16>, FlexVec<FlatVec<u8, u32>, u8>,
+    )
+}
+
 pub struct VT {
     pub name: &'static str,
     pub desc: Desc,
